@@ -17,13 +17,15 @@ CLAIMED = {
     "C02": ("classify-before-return rule (RF3) over typed HIR + guard table + operand-order rule",
             "Decides that no float-producing operation of the arithmetic modules escapes the finiteness classifier, that the classifier maps infinite/NaN to the two evaluation errors, that the undefined/zero-divisor guards named in the statement precede the operations they protect, and that Number/Number keeps operand order in all 16 representation pairs. Numerical values are not decided."),
     "C07": ("exhaustiveness + sibling agreement of Call/Execute/Default twins over typed HIR; or-frame effect table",
-            "Decides two machine-level necessary conditions: every instruction has exactly one handler and the twins of each builtin family run the same work, differing only in continuation (p += 1 vs p = cp) and inference counting; choice-point frames are written and restored field for field. The compiler half of the property (register allocation, variable classification, disjunction chunking) is not decided."),
+            "Decides two machine-level necessary conditions: every instruction has exactly one handler and the twins of each builtin family run the same work, differing only in continuation (p += 1 vs p = cp) and inference counting; no handler steps to the next instruction unconditionally after a builtin that can set the fail flag or throw; choice-point frames are written and restored field for field. The compiler half of the property (register allocation, variable classification, disjunction chunking) is not decided."),
     "C09": ("sibling agreement of liveness tests, must-pass-through of clock ticks (MIR CFG), save/restore ordering of the call generation (typed HIR)",
             "Decides the structure of the logical-update-view protocol: all liveness tests are birth < cc && Finite(cc) <= death; every assert/retract path ticks the clock before returning; stamps come from the clock; cc is read from the clock only on a first call, saved with the choice point, and reloaded from it before the first liveness test on backtracking. Answer sequences are not decided."),
     "C10": ("who-may-call (single binding hook) over call facts, control dependence in bind_with_occurs_check, wiring tables",
             "Decides that under the occurs-check unifiers no binding bypasses the check (the generic unifier binds only through the overridable hook, never through the raw binders or direct cell writes), that the check's flag controls the bind and is reported, that the three occurs_check modes are wired to the three unifiers, and that every per-shape helper has the variable arms. The worklist algorithm is not decided."),
     "C11": ("write/trail pairing, trail-tag round-trip, condition table, or-frame effect table over typed HIR",
             "Decides that every cell write in a trailing function is paired with a trail call of the matching kind, that the trail conditions compare with hb/b strictly, that every trail entry tag pushed is undone by an arm restoring the matching self-reference in reverse order, that bb_b_put distinguishes its three states, who may call unwind_trail, and that choice points are saved/restored field for field. Which goals create choice points is not decided."),
+    "C12": ("goal-order rules over the catch/throw clauses of builtins.pl (plread), effect summaries of the Rust exception primitives (typed HIR, MIR order), who-may-build-a-thrown-error over every Err(..) of type Result<_, MachineStub>",
+            "Decides the control skeleton of catch/3 and throw/1 and the form of builtin errors: throw/1 stores the thrown term (an instantiation error for an unbound ball) before it unwinds; catch/3 captures the outer block before installing its own; the recovery clause restores the outer block, fetches a copy of the ball, parks it and hands it to handle_ball/3, which unifies ball and catcher in its head, commits and calls the recovery, or restores the ball and unwinds again; set_ball stores a copy, unwind_stack cuts to the innermost block and fails, the block and ball-stack primitives do what those clauses need; every error a builtin raises (266 Err(stub) sites, 65 Err(generator) sites, 371 direct throws) is built by error_form, i.e. is error(Formal, Context). setup_call_cleanup/3's exactly-once clause and the undoing of bindings (C11) are not decided here."),
     "C03": ("table agreement between the two evaluators over typed HIR (custom rustc driver)",
             "Decides completely the clause 'both evaluators are the same function of their operands': per evaluable functor the compiled instruction handler and the run-time tree walker reach the same implementation functions with the same constant arguments; key sets coincide; operand fetch is shared. Correctness of the shared implementations is C01/C02."),
     "C04": ("oracle-table and sibling-agreement rules over typed HIR (custom rustc driver)",
@@ -38,10 +40,10 @@ CLAIMED = {
             "Decides the builtins clause only: sort/2 sorts by the standard-order comparator then removes compare-equal neighbours; keysort/2 uses a stable std sort whose comparator reads only the keys. The Prolog collection libraries are not decided."),
     "C16": ("configuration / fallback-shape / radix-table rules over typed HIR + shared-reader reachability on the call graph",
             "Decides that the reader's float parser is never configured lossy and is the only float parser of the reader, that the machine-word integer parse falls back to the big-integer parse and is range-checked, that the radix prefixes are wired to the right radix and digit class, and that number_chars/number_codes read through the same lexer and print through the same float formatter as read_term/write. Digit-level correctness of lexical/dashu/ryu is trusted."),
-    "C17": ("panic budget (RF5) over MIR call/assert facts of the reader scope against a triaged table",
-            "Decides the no-panic clause only: the multiset of potentially panicking constructs (unwrap/expect, panic!/assert!, Index/slice ops, integer division, overflowing multiplications) in the reader bodies reachable from the reader entry points does not exceed the triaged table. Termination and resynchronisation after a syntax error are not decided."),
+    "C17": ("panic budget (RF5) over MIR call/assert facts of the reader scope against a triaged table; interprocedural must-pass-through (lexer progress) over MIR CFGs; match-arm rules over typed HIR",
+            "Decides the no-panic clause (the multiset of potentially panicking constructs — unwrap/expect, panic!/assert!, Index/slice ops, integer division, overflowing multiplications — in the reader bodies reachable from the reader entry points does not exceed the triaged table) and the progress half of the resynchronisation clause (no lexical error leaves Lexer::next_token without having consumed input; a decoder error is not taken for the end of the input and its bytes are consumed; the end-of-file error is made only where the reader reported no more input). Skipping the rest of the offending clause is decided too and fails: recorded known finding. Termination of the parser proper and the terms read are not decided."),
     "C18": ("panic budget of the decoder scope, guarded-range rule, enum-dispatch sibling agreement of Stream's input methods",
-            "Decides that chunk boundaries and truncated input cannot reach a new panicking construct in CharReader or a CharRead/Read impl, that every constant-bounded range used to drain/slice the decode buffer is inside a branch establishing the bound, and that peek/read/put_back/consume/read forward for the same stream kinds (each feature configuration in the thorough tier)."),
+            "Decides that chunk boundaries and truncated input cannot reach a new panicking construct in CharReader or a CharRead/Read impl, that every constant-bounded range used to drain/slice the decode buffer is inside a branch establishing the bound, that peek/read/put_back/consume/read forward for the same stream kinds (each feature configuration in the thorough tier), and that the consuming reads skip the invalid bytes they report (so the characters after an invalid sequence are delivered) while no peek goes through the skipping entry. The decoded values are not decided."),
     "C19": ("enum-dispatch sibling agreement over `Stream`, who-may-consume rule for peek builtins, inverse-table agreement",
             "Decides the interface clauses: every stream kind is handled consistently across the input, output, line-count and past-end sibling groups; peek_char/peek_code/peek_byte call no consuming stream method; the eof_action atom tables are mutually inverse. Payload round-trips and position values are not decided."),
     "C20": ("exhaustive-sibling rule over every HeapCellValueTag match; sibling agreement inside compare_pstr_slices",
@@ -51,7 +53,7 @@ CLAIMED = {
     "C28": ("must-pass-through and dominance over MIR CFGs of QueryState::next / Machine::run_query; stub-frame effect table",
             "Decides the acquire/release structure of an embedded query: the ball is copied with alignment and cleared on every reporting path, the stub choice point is fully initialised (heap mark = current top) and pushed before the goal starts, the success continuation is set, the end test compares with this query's stub, and Drop releases relative to that stub. Answer contents are not decided."),
     "C30": ("type-resolved escape-hatch rule over every Result<_, AllocError> expression in the crate",
-            "Decides error discipline over every allocation site: no value of type Result<_, AllocError> is unwrapped, expect'ed, optioned, tested-and-dropped or discarded outside the reasoned exception table; resource errors are thrown from the pre-allocated term in one place; a failed growth leaves the capacity unchanged."),
+            "Decides error discipline over every allocation site: no value of type Result<_, AllocError> is unwrapped, expect'ed, optioned, tested-and-dropped or discarded outside the reasoned exception table; resource errors are thrown from the pre-allocated term in one place; a failed growth leaves the capacity unchanged; the term copier puts the source term's cells back on every exit, including the allocation-failure exits (must-pass-through over its MIR CFG)."),
     "C31": ("loop-structure rule over typed HIR of both dispatch loops; MIR order of swap/throw/backtrack; accessor table of the INTERRUPT static",
             "Decides the polling structure: both instruction loops poll on every outer cycle after an inner loop bounded by a wrapping u8 counter, no labelled continue skips the poll, the poll clears the flag atomically and raises through throw+backtrack, and only the signal handler sets the flag. Timing is not decided."),
     "C32": ("dominance rules over the MIR CFG of AtomTable::build_with; who-may-call for atom-table mutators",
@@ -74,7 +76,6 @@ CLAIMED = {
 
 NA = {
     "C08": "equality of answer sequences of static/dynamic/meta-called execution over all programs: a value-level property of generated code; no clause fixed by code shape beyond what C07/C09 check",
-    "C12": "catch/throw/setup_call_cleanup are Prolog library code whose semantics depend on run-time block/choice-point values; no sound static argument in reach",
     "C15": "round-trip equality of printed and re-read terms over all terms/operator tables is value-level; the only structural clause (character-class agreement) is claimed under C55",
     "C22": "mode-by-mode solution sequences of Prolog-defined enumerators (atom_length, sub_atom, ...): run-time values",
     "C23": "value-level results of term construction/inspection builtins",
